@@ -28,6 +28,9 @@ NS = "IrVerif.SymExpr."
 THEOREMS = [
     NS + "C16_parser_sound_complete",
     NS + "C16_print_parse",
+    NS + "C16_print_parse_text",
+    NS + "C16_fast_path",
+    NS + "C16_tokenize_render",
     NS + "C16_partial",
     NS + "C16_int_ops",
 ]
@@ -219,6 +222,27 @@ def real_eval(d, env):
         raise
     except Exception as e:  # noqa: BLE001
         return "raised:" + type(e).__name__
+
+
+_EVAL_CACHE: dict = {}
+
+
+def cached_eval(d, env, tag=""):
+    """real evaluate(), memoised per worker on (how the dimension was obtained, its text, the binding):
+    the exhaustive scope builds the same SymPy expression from many different trees"""
+    key = (tag, d.value, tuple(sorted(env.items())))
+    r = _EVAL_CACHE.get(key)
+    if r is None:
+        if len(_EVAL_CACHE) > 200000:
+            _EVAL_CACHE.clear()
+        r = _EVAL_CACHE[key] = real_eval(d, env)
+    return r
+
+
+def canon_hash_int(obj) -> int:
+    import hashlib
+
+    return int(hashlib.sha1(json.dumps(obj, sort_keys=True).encode()).hexdigest()[:8], 16)
 
 
 INFRA_EXC = (CaseTimeout, MemoryError, RecursionError, SkipCase)
@@ -517,16 +541,18 @@ def pow_safe(s: str, envs=()) -> bool:
         return True
     toks = lex(s)
     if toks is not None:
-        try:
-            node = ast.parse(py_text(toks), mode="eval")
-            names = {t for k, t in toks if k == "id"}
-            for env in list(envs) + [{n: 3 for n in names}]:
-                ast_eval(node, env)
-            return True
-        except TooBig:
-            return False
-        except Exception:  # noqa: BLE001
-            pass
+        t = py_tree(s)
+        if t is not None:
+            names = {x for k, x in toks if k == "id"}
+            try:
+                for env in list(envs) + [{n: 3 for n in names}]:
+                    try:
+                        ref_eval(t, env)
+                    except KeyError:
+                        pass
+                return True
+            except TooBig:
+                return False
     if toks is None:
         toks = [("num", m) if m.isdigit() else ("id", m) if m[0].isalpha() or m[0] == "_" else (m, m)
                 for m in re.findall(r"\d+|[A-Za-z_][A-Za-z0-9_.]*|\*\*|.", s)]
@@ -551,67 +577,198 @@ def has_sqrt2(s: str) -> bool:
 # --- Python's own grammar as the reference meaning of a string ---------------------------------
 
 
-def py_text(tokens) -> str:
-    """tokens -> text Python's ast accepts: dotted names mangled, no leading zeros"""
-    out = []
-    for kind, text in tokens:
+def py_parse(s: str):
+    """(ast, {mangled name: identifier}) by Python's own grammar, or None.  Every identifier that
+    is not in call position is renamed (dotted names, Python keywords such as None / lambda)."""
+    toks = lex(s)
+    if toks is None:
+        return None
+    out, names = [], {}
+    for i, (kind, text) in enumerate(toks):
         if kind == "num":
             out.append(str(int(text)))
         elif kind == "id":
-            out.append(text.replace(".", "__dot__"))
+            if i + 1 < len(toks) and toks[i + 1][0] == "(":
+                out.append(text if text in (FN1 | FN2 | FNN) else "unknown_function__")
+            else:
+                out.append(names.setdefault(text, f"v{len(names)}_"))
         else:
             out.append(text)
-    return " ".join(out)
+    try:
+        node = ast.parse(" ".join(out), mode="eval")
+    except (SyntaxError, ValueError, MemoryError, RecursionError):
+        return None
+    return node, {v: k for k, v in names.items()}
 
 
-def ast_eval(node, env):
+_AST_BIN = {ast.Add: "add", ast.Sub: "sub", ast.Mult: "mul", ast.Div: "div",
+            ast.FloorDiv: "fdiv", ast.Mod: "mod", ast.Pow: "pow"}
+_FN1_OP = {"floor": "floor", "ceiling": "ceil", "Abs": "abs", "sign": "sign", "sqrt": "sqrt"}
+
+
+def ast_tree(node, back):
+    """Python AST -> expression tree in the model's JSON form (independent reading of the text);
+    ValueError when the text uses something outside the documented grammar."""
     if isinstance(node, ast.Expression):
-        return ast_eval(node.body, env)
-    if isinstance(node, ast.Constant) and isinstance(node.value, int):
-        return Fraction(node.value)
-    if isinstance(node, ast.Name):
-        return Fraction(env[node.id.replace("__dot__", ".")])
+        return ast_tree(node.body, back)
+    if isinstance(node, ast.Constant) and isinstance(node.value, int) and not isinstance(node.value, bool):
+        return ("n", node.value)
+    if isinstance(node, ast.Name) and node.id in back:
+        return ("s", back[node.id])
     if isinstance(node, ast.UnaryOp) and isinstance(node.op, ast.USub):
-        x = ast_eval(node.operand, env)
-        return None if x is None else -x
-    if isinstance(node, ast.BinOp):
-        x, y = ast_eval(node.left, env), ast_eval(node.right, env)
-        if x is None or y is None:
-            return None
-        op = {
-            ast.Add: "add", ast.Sub: "sub", ast.Mult: "mul", ast.Div: "div",
-            ast.FloorDiv: "fdiv", ast.Mod: "mod", ast.Pow: "pow",
-        }[type(node.op)]
-        return _g(ref_bin(op, x, y))
+        return ("u", "neg", ast_tree(node.operand, back))
+    if isinstance(node, ast.BinOp) and type(node.op) in _AST_BIN:
+        return ("b", _AST_BIN[type(node.op)], ast_tree(node.left, back), ast_tree(node.right, back))
     if isinstance(node, ast.Call) and isinstance(node.func, ast.Name) and not node.keywords:
         name = node.func.id
-        args = [ast_eval(a, env) for a in node.args]
-        if any(a is None for a in args):
-            return None
+        args = [ast_tree(a, back) for a in node.args]
         if name in FNN:
+            op = name.lower()
             if not args:
-                return None
-            return (max if name.lower() == "max" else min)(args)
+                return ("inf", op == "max")
+            cur = args[0]
+            for a in args[1:]:
+                cur = ("b", op, cur, a)
+            return cur
         if name in FN2 and len(args) == 2:
-            return _g(ref_bin("mod", args[0], args[1]))
+            return ("b", "mod", args[0], args[1])
         if name in FN1 and len(args) == 1:
-            op = {"floor": "floor", "ceiling": "ceil", "Abs": "abs", "sign": "sign", "sqrt": "sqrt"}[name]
-            return _g(ref_un(op, args[0]))
+            return ("u", _FN1_OP[name], args[0])
     raise ValueError("outside the documented grammar")
+
+
+def py_tree(s: str):
+    """the expression tree Python's grammar reads in `s`, or None"""
+    r = py_parse(s)
+    if r is None:
+        return None
+    try:
+        return ast_tree(r[0], r[1])
+    except (ValueError, RecursionError):
+        return None
 
 
 def py_meaning(s: str, envs):
     """[value per env] by Python's grammar, or None when Python's reading is not available"""
-    toks = lex(s)
-    if toks is None:
+    t = py_tree(s)
+    if t is None:
         return None
     try:
-        node = ast.parse(py_text(toks), mode="eval")
-        return [fr(ast_eval(node, env)) for env in envs]
-    except TooBig:
+        return [fr(ref_eval(t, env)) for env in envs]
+    except KeyError:
+        return None
+
+
+# --- who is to blame for a wrong value: the repo or SymPy's own arithmetic? -----------------------
+
+
+def sympy_ref_of_tree(t):
+    """The SymPy expression the documented operations give for a tree, built directly (normal
+    evaluation): what `SymbolicDim` arithmetic is a thin wrapper of."""
+    import sympy
+
+    tag = t[0]
+    if tag == "n":
+        return sympy.Integer(t[1])
+    if tag == "s":
+        return sympy.Symbol(t[1], integer=True, positive=True)
+    if tag == "inf":
+        return sympy.Max() if t[1] else sympy.Min()
+    if tag == "u":
+        a = sympy_ref_of_tree(t[2])
+        op = t[1]
+        if op == "neg":
+            return -a
+        if op == "floor":
+            return sympy.floor(a)
+        if op == "ceil":
+            return sympy.ceiling(a)
+        if op == "trunc":
+            return sympy.sign(a) * sympy.floor(sympy.Abs(a))
+        if op == "abs":
+            return sympy.Abs(a)
+        if op == "sign":
+            return sympy.sign(a)
+        if op == "sqrt":
+            return sympy.sqrt(a)
+        raise AssertionError(op)
+    a, b = sympy_ref_of_tree(t[2]), sympy_ref_of_tree(t[3])
+    op = t[1]
+    if op == "add":
+        return a + b
+    if op == "sub":
+        return a - b
+    if op == "mul":
+        return a * b
+    if op == "div":
+        return a / b
+    if op == "fdiv":
+        return sympy.floor(a / b)
+    if op == "mod":
+        return sympy.Mod(a, b)
+    if op == "pow":
+        return a**b
+    if op == "max":
+        return sympy.Max(a, b)
+    if op == "min":
+        return sympy.Min(a, b)
+    raise AssertionError(op)
+
+
+def sympy_direct_value(t, *envs, simplify=False):
+    """value of the tree computed by SymPy alone (construction, optional simplify, one subs per
+    env in turn), canonicalised like `canon_real`; 'exc' when SymPy raises"""
+    import sympy
+
+    try:
+        r = sympy_ref_of_tree(t)
+        if simplify:
+            r = sympy.simplify(r)
+        for env in envs:
+            r = r.subs({sym: env[str(sym)] for sym in r.free_symbols if str(sym) in env})
+        if r.is_number and r.is_integer:
+            return [int(r), 1]
+        if isinstance(r, sympy.Rational):
+            return [int(r.p), int(r.q)]
+        if r in (sympy.zoo, sympy.nan, sympy.oo, -sympy.oo):
+            return None
+        return ("symbolic", str(r))
+    except INFRA_EXC:
         raise
     except Exception:  # noqa: BLE001
-        return None
+        return "exc"
+
+
+def upstream_blame(real_val, *cands, simplify=False):
+    """The real result is wrong, but it is exactly what SymPy itself computes for the same
+    operations (cands: (tree, env, ...) readings): the defect is SymPy's arithmetic /
+    simplification, not the repo's code.  Returns the blamed tree or None."""
+    for c in cands:
+        t, *envs = c
+        if t is not None and sympy_direct_value(t, *envs, simplify=simplify) == real_val:
+            return t
+    return None
+
+
+def vfail(P, sig, what, case, got, *cands, simplify=False):
+    """a wrong VALUE on the real code: attributed to SymPy (signature sympy-upstream:...) when SymPy
+    alone computes the same wrong value, to the repo otherwise"""
+    t = upstream_blame(got, *cands, simplify=simplify)
+    if t is not None:
+        P.fail("sympy-upstream:" + sig.split(":")[0], what + f" [SymPy alone computes the same wrong value; operators {ops_sig(t)}]", case)
+    else:
+        P.fail(sig, what, case)
+
+
+def vdisagree(P, what, case, model, impl, got, *cands):
+    if upstream_blame(got, *cands) is not None:
+        P.count("value_disagreement_blamed_on_sympy")
+    else:
+        P.disagree(what, case, model, impl)
+
+
+def ops_sig(t) -> str:
+    return "+".join(sorted(set(tree_ops(t, []))))[:60] if t is not None else "?"
 
 
 # --------------------------------------------------------------------------- generators
@@ -861,8 +1018,12 @@ def envj(env):
 class TreeCase:
     """One expression tree: real operators vs Lean eval vs Fraction oracle."""
 
-    def __init__(self, tree, envs, splits, simplify: bool, shape: bool, src: str):
+    def __init__(self, tree, envs, splits, simplify: bool, shape: bool, src: str, light: bool = False):
         self.tree, self.envs, self.splits, self.simplify, self.shape, self.src = tree, envs, splits, simplify, shape, src
+        # light (exhaustive small scope): the re-parsed text is evaluated under 4 of the bindings and
+        # the model-printed text goes through the real parser for one tree in eight
+        self.light = light
+        self.with_pp = (not light) or (canon_hash_int(tree) % 8 == 0)
         self.reqs = []
 
     def canonical(self):
@@ -897,24 +1058,25 @@ class TreeCase:
             if any(r is not None for r in self.ref):
                 P.fail("build:" + type(e).__name__ + "-on-defined-value:" + _shape_sig(t), f"building raised {type(e).__name__}: {e} although the expression has a value", self.case_obj)
         self.reqs.append({"m": "sym.eval", "e": t, "envs": [envj(e) for e in self.envs]})
-        self.reqs.append({"m": "sym.pp", "e": t})
+        if self.with_pp:
+            self.reqs.append({"m": "sym.pp", "e": t})
         if self.d is None:
             return
         self.value = d.value
-        self.real_vals = [real_eval(d, e) for e in self.envs]
+        self.real_vals = [cached_eval(d, e) for e in self.envs]
         # oracle 1: complete bindings
         for env, want, got in zip(self.envs, self.ref, self.real_vals):
             if want is not None and got != fr(want):
-                P.fail("evaluate:complete:" + _shape_sig(t), f"evaluate({env}) = {got}, exact value {fr(want)}; value text {self.value!r}", self.case_obj)
+                vfail(P, "evaluate:complete:" + _shape_sig(t), f"evaluate({env}) = {got}, exact value {fr(want)}; value text {self.value!r}", self.case_obj, got, (t, env))
                 break
         # oracle 2: the text form parses back to the same evaluations
         self.reparse = real_parse_outcome(self.value)
         self.vals2 = None
         if self.reparse[0] == "ok":
-            self.vals2 = vals2 = [real_eval(self.reparse[1], e) for e in self.envs]
+            self.vals2 = vals2 = [cached_eval(self.reparse[1], e, "reparsed") for e in (self.envs[:4] if self.light else self.envs)]
             for env, want, got in zip(self.envs, self.ref, vals2):
                 if want is not None and got != fr(want):
-                    P.fail("print-parse:value:" + _text_sig(self.value), f"SymbolicDim({self.value!r}).evaluate({env}) = {got}, exact value {fr(want)}", self.case_obj)
+                    vfail(P, "print-parse:value:" + _text_sig(self.value), f"SymbolicDim({self.value!r}).evaluate({env}) = {got}, exact value {fr(want)}", self.case_obj, got, (t, env), (py_tree(self.value), env))
                     break
         elif any(r is not None for r in self.ref):
             P.fail("print-parse:" + self.reparse[0] + ":" + _text_sig(self.value), f"SymbolicDim({self.value!r}) does not parse ({self.reparse[1]})", self.case_obj)
@@ -942,13 +1104,13 @@ class TreeCase:
                     if rp[0] != "ok":
                         P.fail("partial:residual-text:" + rp[0] + ":" + _text_sig(r1text or ""), f"residual {r1text!r} of evaluate({b1}) does not parse", self.case_obj)
                     elif real_eval(rp[1], b2) != fr(want):
-                        P.fail("partial:residual-text:value:" + _text_sig(r1text), f"residual {r1text!r} re-parsed evaluates to {real_eval(rp[1], b2)} under {b2}, exact {fr(want)}", self.case_obj)
+                        vfail(P, "partial:residual-text:value:" + _text_sig(r1text), f"residual {r1text!r} re-parsed evaluates to {real_eval(rp[1], b2)} under {b2}, exact {fr(want)}", self.case_obj, real_eval(rp[1], b2), (t, b1, b2), (py_tree(r1text), b2))
                 return got, free1, r1text
 
             st, res = attempt(_partial)
             got, free1, r1text = res if st == "ok" else (res, [], None)
             if want is not None and got != fr(want):
-                P.fail("partial:value:" + _shape_sig(t), f"evaluate({b1}) then evaluate({b2}) = {got}, exact {fr(want)} (residual {r1text!r})", self.case_obj)
+                vfail(P, "partial:value:" + _shape_sig(t), f"evaluate({b1}) then evaluate({b2}) = {got}, exact {fr(want)} (residual {r1text!r})", self.case_obj, got, (t, b1, b2))
             allowed = set(tree_syms(t)) - set(b1)
             if want is not None and not set(free1) <= allowed:
                 P.fail("partial:free-symbols", f"residual {r1text!r} has free symbols {free1}, expected a subset of {sorted(allowed)}", self.case_obj)
@@ -963,7 +1125,7 @@ class TreeCase:
                 for env, want in zip(self.envs, self.ref):
                     got = real_eval(ds, env)
                     if want is not None and got != fr(want):
-                        P.fail("simplify:value:" + _text_sig(self.value), f"simplify() of {self.value!r} = {ds.value!r} evaluates to {got} under {env}, exact {fr(want)}", self.case_obj)
+                        vfail(P, "simplify:value:" + _text_sig(self.value), f"simplify() of {self.value!r} = {ds.value!r} evaluates to {got} under {env}, exact {fr(want)}", self.case_obj, got, (t, env), simplify=True)
                         break
                 rp = real_parse_outcome(ds.value)
                 if rp[0] != "ok" and any(r is not None for r in self.ref):
@@ -972,7 +1134,7 @@ class TreeCase:
                     for env, want in zip(self.envs, self.ref):
                         got = real_eval(rp[1], env)
                         if want is not None and got != fr(want):
-                            P.fail("simplify:text:value:" + _text_sig(ds.value), f"simplify() text {ds.value!r} re-parsed evaluates to {got} under {env}, exact {fr(want)}", self.case_obj)
+                            vfail(P, "simplify:text:value:" + _text_sig(ds.value), f"simplify() text {ds.value!r} re-parsed evaluates to {got} under {env}, exact {fr(want)}", self.case_obj, got, (py_tree(ds.value), env))
                             break
 
             st, res = attempt(_simplify)
@@ -1019,11 +1181,16 @@ class TreeCase:
             P.count(f"op={o}")
         it = iter(outs)
         ev = next(it)
-        ppo = next(it)
         lean_vals = ev.get("r")
         want = [fr(r) for r in self.ref]
         if lean_vals != want:
             P.disagree("Lean eval of the tree != exact Fraction arithmetic (harness oracle)", self.case_obj, lean_vals, want)
+        if self.with_pp:
+            self._finish_pp(P, next(it), want)
+        self._finish_rest(P, it, lean_vals)
+
+    def _finish_pp(self, P: Part, ppo, want):
+        t = self.tree
         # model printer: its text through the REAL parser must evaluate like the tree
         text = ppo.get("s")
         if not ppo.get("retok") or ppo.get("reparsed") != ppo.get("norm"):
@@ -1031,9 +1198,9 @@ class TreeCase:
         rp = real_parse_outcome(text)
         if rp[0] == "ok":
             got = [real_eval(rp[1], e) for e in self.envs[:4]]
-            for g, w in zip(got, want):
+            for g, w, env in zip(got, want, self.envs):
                 if w is not None and g != w:
-                    P.disagree("real parser on model-printed text evaluates differently from the tree", {"text": text, **self.case_obj}, w, g)
+                    vdisagree(P, "real parser on model-printed text evaluates differently from the tree", {"text": text, **self.case_obj}, w, g, g, (t, env), (py_tree(text), env))
                     break
             st_real, st_model = real_parse_structure(text), model_structure(ppo.get("norm"))
             if st_real != st_model:
@@ -1041,27 +1208,30 @@ class TreeCase:
         elif rp[0] == "raised" or any(w is not None for w in want):
             P.disagree("real parser rejects model-printed text", {"text": text, **self.case_obj}, "ok", rp)
         P.count("pp_real=" + rp[0])
+
+    def _finish_rest(self, P: Part, it, lean_vals):
+        t = self.tree
         if self.d is None:
             return
-        for got, w in zip(self.real_vals, lean_vals or []):
+        for got, w, env in zip(self.real_vals, lean_vals or [], self.envs):
             if w is None:
                 P.count("value=undefined")
             elif got != w:
-                P.disagree("real evaluate != Lean eval of the tree", self.case_obj, w, got)
+                vdisagree(P, "real evaluate != Lean eval of the tree", self.case_obj, w, got, got, (t, env))
                 break
         pr = next(it)
-        self._compare_parse(P, self.value, self.reparse, self.real_struct, pr, self.vals2)
+        self._compare_parse(P, self.value, self.reparse, self.real_struct, pr, self.vals2, self.envs)
         for (b1, b2, got, free1) in self.partials:
             po = next(it)
             if po.get("resid") != po.get("full"):
                 P.disagree("model: eval b2 (subst b1 e) != eval (b1 u b2) e", self.case_obj, po, None)
             if po.get("resid") is not None and got != po.get("resid"):
-                P.disagree("real partial evaluate != Lean subst/eval", {"b1": b1, "b2": b2, **self.case_obj}, po.get("resid"), got)
+                vdisagree(P, "real partial evaluate != Lean subst/eval", {"b1": b1, "b2": b2, **self.case_obj}, po.get("resid"), got, got, (t, b1, b2))
             if po.get("resid") is not None and not set(free1) <= set(po.get("free", [])):
                 P.disagree("real residual free symbols not within the model's", {"b1": b1, **self.case_obj}, po.get("free"), free1)
 
     @staticmethod
-    def _compare_parse(P, s, real_outcome, real_struct, lean, real_vals):
+    def _compare_parse(P, s, real_outcome, real_struct, lean, real_vals, envs=()):
         case = {"kind": "string", "s": s}
         lr = lean.get("r")
         if lr == "nonascii":
@@ -1083,13 +1253,10 @@ class TreeCase:
         st = model_structure(lean.get("tree"))
         if st != real_struct:
             P.disagree("parse trees differ (SymPy objects built without evaluation)", case, st, real_struct)
-        for w, g in zip(lean.get("vals", []), real_vals or []):
+        for w, g, env in zip(lean.get("vals", []), real_vals or [], envs):
             if w is not None and g != w:
-                if sympy_modpow_suspect(s):
-                    # SymPy's own arithmetic is wrong here (known finding D162, raised by the oracle)
-                    P.count("values_differ=sympy-Mod-of-power")
-                else:
-                    P.disagree("values of the parsed text differ", case, lean.get("vals"), real_vals)
+                # SymPy's own arithmetic may be wrong (known finding D162, raised by the oracle)
+                vdisagree(P, "values of the parsed text differ", case, lean.get("vals"), real_vals, g, (py_tree(s), env))
                 break
 
 
@@ -1132,7 +1299,7 @@ class StringCase:
             if want is not None:
                 for env, w, g in zip(self.envs, want, self.real_vals):
                     if w is not None and g != w:
-                        P.fail(("sympy-Mod-of-power:grammar:meaning" if sympy_modpow_suspect(s) else "grammar:meaning:" + _text_sig(s)), f"{s!r} evaluates to {g} under {env}; standard precedence gives {w}", self.case_obj)
+                        vfail(P, "grammar:meaning:" + _text_sig(s), f"{s!r} evaluates to {g} under {env}; standard precedence gives {w}", self.case_obj, g, (py_tree(s), env))
                         break
                 P.count("meaning=checked")
 
@@ -1143,7 +1310,7 @@ class StringCase:
                outcome=self.outcome[0], in_grammar=self.ing, length=min(len(s) // 10 * 10, 80))
         if self.skip:
             return
-        TreeCase._compare_parse(P, s, self.outcome, self.real_struct, pr, self.real_vals)
+        TreeCase._compare_parse(P, s, self.outcome, self.real_struct, pr, self.real_vals, self.envs)
         # tokenizer: model vs real get_token stream
         real_toks = real_tokens(s)
         if tk.get("r") != "nonascii" and tk.get("r") != real_toks:
@@ -1180,7 +1347,7 @@ class DerivCase:
         if o.get("parsed") != o.get("sem"):
             P.disagree("model: parseTokens (flatten d) != sem d", self.case_obj, o.get("parsed"), o.get("sem"))
         lean = {"r": "ok", "tree": o.get("sem"), "vals": o.get("vals")}
-        TreeCase._compare_parse(P, self.s, self.outcome, self.real_struct, lean, self.real_vals)
+        TreeCase._compare_parse(P, self.s, self.outcome, self.real_struct, lean, self.real_vals, self.envs)
 
 
 def real_tokens(s: str):
@@ -1216,14 +1383,6 @@ def _missing_op(t) -> str:
 def _shape_sig(t) -> str:
     ops = sorted(set(tree_ops(t, [])))
     return "+".join(ops)[:60]
-
-
-def sympy_modpow_suspect(s: str) -> bool:
-    """SymPy 1.14 evaluates Mod(2**M, 6) to 0 (also reached through floor(x/c), which it rewrites with
-    Mod): texts with a power whose exponent is not a literal, under %, //, Mod, floor or ceiling."""
-    if "**" not in s or not any(k in s for k in ("%", "//", "Mod(", "mod(", "floor(", "ceiling(", "Mod ", "mod ", "floor ", "ceiling ")):
-        return False
-    return re.search(r"\*\*\s*(?!\d+(?![\w.]))", s) is not None
 
 
 def _text_sig(s: str) -> str:
@@ -1346,9 +1505,9 @@ def run(ctx: Ctx) -> None:
         )
     envs16 = [{"N": a, "M": b} for a in range(1, 5) for b in range(1, 5)]
     for t in ex:
-        tree_items.append(dict(tree=t, envs=envs16, splits=[({"N": 2}, {"M": 3}), ({"M": 1}, {"N": 4})], simplify=False, shape=False, src="exhaustive"))
+        tree_items.append(dict(tree=t, envs=envs16, splits=[({"N": 2}, {"M": 3})], simplify=False, shape=False, src="exhaustive", light=True))
     # ---- random deep trees
-    for i in range(ctx.pick(500, 20000)):
+    for i in range(ctx.pick(400, 6000)):
         depth = rng.choice([2, 3, 3, 4, 4, 5, 6])
         nsyms = rng.choice([1, 2, 2, 3, 4])
         t = gen_tree(rng, depth, nsyms, [-7, -3, -2, -1, 0, 1, 2, 3, 4, 6, 12])
@@ -1360,19 +1519,19 @@ def run(ctx: Ctx) -> None:
     for s in FIXED_MALFORMED:
         str_items.append(dict(s=s, envs=_string_envs(rng, s), src="fixed"))
     deriv_items = []
-    for i in range(ctx.pick(3000, 60000)):
+    for i in range(ctx.pick(2500, 40000)):
         d = gen_deriv(rng, rng.choice([1, 2, 2, 3, 4]))
         toks = flatten_deriv(d)
         s = render_tokens(rng, toks, rng.choice([0, 1, 2]))
         envs = _string_envs(rng, s)
         str_items.append(dict(s=s, envs=envs, src="grammar"))
         deriv_items.append(dict(d=d, envs=envs, src="derivation"))
-    for i in range(ctx.pick(3000, 60000)):
+    for i in range(ctx.pick(2500, 40000)):
         s = gen_malformed(rng, rng.choice([0, 1, 2, 3]))
         str_items.append(dict(s=s, envs=_string_envs(rng, s), src="malformed"))
     ctx.count("corpus_cases", ncorpus)
     rng.shuffle(tree_items)
-    parts = pmap(_run_chunk, _chunks("tree", tree_items, 64) + _chunks("string", str_items, 32) + _chunks("deriv", deriv_items, 16))
+    parts = pmap(_run_chunk, _chunks("tree", tree_items, 64 if ctx.quick else 512) + _chunks("string", str_items, 32 if ctx.quick else 128) + _chunks("deriv", deriv_items, 16 if ctx.quick else 64))
     for p in parts:
         ctx.merge(p)
 
